@@ -261,7 +261,11 @@ register("C02",
          "(argument identities) compared with the model and with the declarative wiring oracle",
          [planner_part("C02", _nt_calls2),
           e2e_part("C02", P_DEFAULT + [("p", {"p_extra_params": 0.95, "max_structs": 4, "units": [2, 3], "p_func": 0.2, "p_iface_root": 0.8,
-                                                "p_iface_arg": 0.4, "p_conc_arg": 0.8, "p_twin": 0.0})], _pairs_c02,
+                                                "p_iface_arg": 0.4, "p_conc_arg": 0.8, "p_twin": 0.0}),
+                                         # adversarial names: a parameter called like the package of its own type, whose type has
+                                         # methods looking exactly like that package's provider functions (capture = wrong source)
+                                         ("q", {"adversarial": True, "p_extra_params": 0.95, "p_conc_arg": 0.9, "units": [1, 2],
+                                                "p_mimic_methods": 1.0, "p_param_pkg": 0.7, "p_lib_structs": 0.8, "p_func": 0.8, "min_structs": 4, "p_wrap_build": 0.8})], _pairs_c02,
                    {"C02", "C11", "C12", "C13"}, lambda ur: len((ur.impl or "").split()) >= 3,
                    n_quick=120, n_thorough=1000),
           # several injectors of one package whose designated sources are values of one type (differing only inside
